@@ -437,7 +437,7 @@ func genStat(t *rapid.T, n *Node, coupled bool) {
 
 func genNodes(t *rapid.T, depth int, form, coupled bool, left *int) []Node {
 	// NB rapid favours early alternatives
-	n := rapid.SampledFrom([][]int{{3, 2, 4, 1, 5, 6, 0}, {2, 1, 3, 0, 4}, {2, 1, 0, 3}}[depth]).Draw(t, "n")
+	n := rapid.SampledFrom([][]int{{3, 2, 4, 1, 0, 5, 6}, {2, 1, 0, 3, 4}, {2, 0, 1, 3}}[depth]).Draw(t, "n")
 	var out []Node
 	used := map[string]bool{}
 	for i := 0; i < n && *left > 0; i++ {
